@@ -1,0 +1,416 @@
+//go:build verif
+
+package erc20
+
+// C04 for the ERC-20 precompile (tx.go, approve.go, and the helpers of types.go / query.go / events.go they use).
+// Comment-only; compiled only with -tags verif. Lib specs: /verif/specs/lib, /verif/specs/c04, /verif/specs/c04e.
+// The grant store is the abstract view of 62_authz.spec (g_kind / g_exp / g_limited / g_limit keyed by gkey(grantee bytes, granter
+// bytes, message type URL)) extended by 70_send_authz.spec with g_sa[key], the stored SendAuthorization {SpendLimit, AllowList}.
+// ERC-20 allowance(owner, spender) = g_sa[gkey(spender, owner, SendMsgURL)].SpendLimit[token denom] of a live SendAuthorization grant.
+
+/*@
+const glob_erc20_SendMsgURL string
+// SendAuthorization.MsgTypeURL() and erc20.SendMsgURL are both sdk.MsgTypeURL(&banktypes.MsgSend{})
+axiom const_auth_url: const_auth_url(SendTag()) == glob_erc20_SendMsgURL
+specfunc Pow256() int = 115792089237316195423570985008687907853269984665640564039457584007913129639936
+// nothing but the entry of key k differs between the grant views a (now) and b (before)
+specfunc OnlySA(a GSA, b GSA, k GKey) bool = a == upd(b, k, a[k])
+specfunc OnlyKind(a GKind, b GKind, k GKey) bool = a == upd(b, k, a[k])
+
+global github.com/haqq-network/haqq/precompiles/erc20.ErrDecreaseNonPositiveValue nonnil
+global github.com/haqq-network/haqq/precompiles/erc20.ErrIncreaseNonPositiveValue nonnil
+global github.com/haqq-network/haqq/precompiles/erc20.ErrNegativeAmount nonnil
+global github.com/haqq-network/haqq/precompiles/erc20.ErrSpenderIsOwner nonnil
+global github.com/haqq-network/haqq/precompiles/erc20.ErrDecreasedAllowanceBelowZero nonnil
+global github.com/haqq-network/haqq/precompiles/erc20.ErrInsufficientAllowance nonnil
+global github.com/haqq-network/haqq/precompiles/erc20.ErrTransferAmountExceedsBalance nonnil
+
+// ------------------------------------------------------------------ ABI argument decoding
+func ParseTransferArgs
+    ensures err_iff: (result.2 == nil) == (len(args) == 2 && isdyn(args[0], Address) && isdyn(args[1], *BigInt))
+    ensures decoded: result.2 == nil ==> result.0 == dyn(args[0], Address) && result.1 == dyn(args[1], *BigInt)
+
+func ParseTransferFromArgs
+    ensures err_iff: (result.3 == nil) == (len(args) == 3 && isdyn(args[0], Address) && isdyn(args[1], Address) && isdyn(args[2], *BigInt))
+    ensures decoded: result.3 == nil ==> result.0 == dyn(args[0], Address) && result.1 == dyn(args[1], Address) && result.2 == dyn(args[2], *BigInt)
+
+func ParseApproveArgs
+    ensures err_iff: (result.2 == nil) == (len(args) == 2 && isdyn(args[0], Address) && isdyn(args[1], *BigInt))
+    ensures decoded: result.2 == nil ==> result.0 == dyn(args[0], Address) && result.1 == dyn(args[1], *BigInt)
+
+// ------------------------------------------------------------------ helpers
+// the denomination's entry is replaced (or added), every other denomination is kept. A zero coin would be written into the list
+// in place (an invalid list the map view cannot represent): callers pass a non-zero amount.
+func updateOrAddCoin
+    requires nonzero: coin.Amount != 0
+    loop 1 invariant idx: 0 <= #i && #i <= coins_len(coins)
+    loop 1 invariant same: coins == old(coins)
+    loop 1 invariant absent: forall k int :: 0 <= k && k < #i ==> coins_at(coins, k).Denom != coin.Denom
+    loop 1 exit use CoinsPrefixAbsent(coins, coins_len(coins), coin.Denom)
+    ensures replaced: result == cset(coins, coin.Denom, coin.Amount)
+
+// an error stays an error
+func ConvertErrToERC20Error
+    requires err: err != nil
+    ensures result != nil
+
+// C04: an authorization / allowance is reported only for a live SendAuthorization grant (granter -> grantee); the allowance is the
+// stored spend limit of exactly the asked denomination (0 when the denomination is absent or there is no such grant)
+func GetAuthzExpirationAndAllowance
+    let key = gkey(addr_bytes(grantee), addr_bytes(granter), glob_erc20_SendMsgURL)
+    ensures err_iff: (result.3 == nil) == (GLive(g_kind, g_exp, key, ctx) && g_kind[key] == SendTag())
+    ensures found: result.3 == nil ==> isdyn(result.0, *SendAuthz) && dyn(result.0, *SendAuthz) != nil && fresh(dyn(result.0, *SendAuthz)) && *dyn(result.0, *SendAuthz) == g_sa[key]
+            && result.1 == g_exp[key] && result.2 != nil && *result.2 == g_sa[key].SpendLimit[denom]
+    ensures refused: result.3 != nil ==> result.0 == nil && result.1 == nil && result.2 != nil && *result.2 == 0
+
+func (Precompile).Address
+    ensures result == pair_contract(p.tokenPair)
+
+// event emission: writes an EVM log only - no effect on the Cosmos state or the grants (frame proved)
+func (Precompile).EmitTransferEvent
+    // abi.json: event Transfer has 3 inputs (from, to indexed; value)
+    requires wf: ctx_height(ctx) >= 0 && len(p.ABI.Events["Transfer"].Inputs) == 3 && stateDB != nil
+    ensures true
+func (Precompile).EmitApprovalEvent
+    // abi.json: event Approval has 3 inputs (owner, spender indexed; value)
+    requires wf: ctx_height(ctx) >= 0 && len(p.ABI.Events["Approval"].Inputs) == 3 && stateDB != nil
+    ensures true
+
+// ------------------------------------------------------------------ grant writers
+// C04: the grant written is (granter -> grantee) for MsgSend: a SendAuthorization whose only limit is `amount` of the token pair's
+// denomination, no recipient restriction, expiring ApprovalExpiration after the block time. A non-positive amount and an amount
+// beyond 256 bits are refused with nothing changed. No other grant changes.
+func (Precompile).createAuthorization
+    requires nonnil: amount != nil
+    let key = gkey(addr_bytes(grantee), addr_bytes(granter), glob_erc20_SendMsgURL)
+    let amt = old(*amount)
+    let denom = p.tokenPair.Denom
+    modifies g_kind, g_exp, g_limited, g_limit, g_sa
+    call NewIntFromBigInt requires fits: i != nil && bitlen(*i) <= 256
+    call SaveGrant requires who: gte == addr_bytes(grantee) && gtr == addr_bytes(granter)
+    call SaveGrant requires what: isdyn(authorization, *SendAuthz) && dyn(authorization, *SendAuthz) != nil && dyn(authorization, *SendAuthz).SpendLimit == cone(denom, amt)
+            && len(dyn(authorization, *SendAuthz).AllowList) == 0 && amt > 0 && bitlen(amt) <= 256
+    call SaveGrant requires expiry: exp != nil && time_unix(*exp) == time_unix(time_add(ctx_blocktime(ctx), p.ApprovalExpiration))
+    call SaveGrant requires untouched: g_kind == old(g_kind) && g_exp == old(g_exp) && g_limited == old(g_limited) && g_limit == old(g_limit) && g_sa == old(g_sa)
+    ensures granted: result == nil ==> amt > 0 && bitlen(amt) <= 256 && g_kind == upd(old(g_kind), key, SendTag()) && g_sa[key].SpendLimit == cone(denom, amt) && len(g_sa[key].AllowList) == 0
+            && OnlySA(g_sa, old(g_sa), key) && g_limited == old(g_limited) && g_limit == old(g_limit)
+    ensures expiry: result == nil ==> g_exp[key] != nil && !exp_passed(g_exp[key], ctx) && (forall k GKey :: k != key ==> g_exp[k] == old(g_exp)[k])
+    ensures refused: amt <= 0 || bitlen(amt) > 256 ==> result != nil && g_kind == old(g_kind) && g_exp == old(g_exp) && g_limited == old(g_limited) && g_limit == old(g_limit) && g_sa == old(g_sa)
+
+// C04: the grant (granter -> grantee) for MsgSend is rewritten with the given authorization in which ONLY the limit of the token
+// pair's denomination is set to `amount` (> 0: call sites); the other denominations, the allow list and the given expiration are kept
+func (Precompile).updateAuthorization
+    requires wf: amount != nil && authorization != nil && *amount > 0 && bitlen(*amount) <= 256
+    let key = gkey(addr_bytes(grantee), addr_bytes(granter), glob_erc20_SendMsgURL)
+    let amt = old(*amount)
+    let denom = p.tokenPair.Denom
+    let SL0 = old(authorization.SpendLimit)
+    let AL0 = old(authorization.AllowList)
+    modifies *authorization, g_kind, g_exp, g_limited, g_limit, g_sa
+    call NewIntFromBigInt requires fits: i != nil && bitlen(*i) <= 256
+    call SaveGrant requires who: gte == addr_bytes(grantee) && gtr == addr_bytes(granter) && exp == expiration
+    call SaveGrant requires what: isdyn(authorization, *SendAuthz) && dyn(authorization, *SendAuthz) != nil && dyn(authorization, *SendAuthz).SpendLimit == cset(SL0, denom, amt)
+            && dyn(authorization, *SendAuthz).AllowList == AL0
+    call SaveGrant requires untouched: g_kind == old(g_kind) && g_exp == old(g_exp) && g_limited == old(g_limited) && g_limit == old(g_limit) && g_sa == old(g_sa)
+    ensures saved: result == nil ==> g_kind == upd(old(g_kind), key, SendTag()) && g_exp == upd(old(g_exp), key, expiration) && g_sa[key].SpendLimit == cset(SL0, denom, amt)
+            && g_sa[key].AllowList == AL0 && OnlySA(g_sa, old(g_sa), key) && g_limited == old(g_limited) && g_limit == old(g_limit)
+
+// C04: the token pair's denomination is removed from the spend limit of the grant (granter -> grantee); when it was the only one the
+// grant is deleted, otherwise the grant is rewritten with the remaining denominations, allow list and expiration kept. An
+// authorization that is not a SendAuthorization or has no limit for the denomination: error, nothing changed.
+func (Precompile).removeSpendLimitOrDeleteAuthorization
+    // authorizations come from GetAuthorization: a typed authorization value is never a nil pointer
+    requires typed: isdyn(authorization, *SendAuthz) ==> dyn(authorization, *SendAuthz) != nil
+    let key = gkey(addr_bytes(grantee), addr_bytes(granter), glob_erc20_SendMsgURL)
+    let denom = p.tokenPair.Denom
+    let SA = dyn(authorization, *SendAuthz)
+    let SL0 = old(dyn(authorization, *SendAuthz).SpendLimit)
+    let AL0 = old(dyn(authorization, *SendAuthz).AllowList)
+    let rest = cset(SL0, denom, 0)
+    modifies *cast(authorization, *SendAuthz), g_kind, g_exp, g_limited, g_limit, g_sa
+    call DeleteGrant requires who: gte == addr_bytes(grantee) && gtr == addr_bytes(granter) && url == glob_erc20_SendMsgURL
+    call DeleteGrant requires when: isdyn(authorization, *SendAuthz) && SL0[denom] != 0 && ciszero(rest)
+            && g_kind == old(g_kind) && g_exp == old(g_exp) && g_limited == old(g_limited) && g_limit == old(g_limit) && g_sa == old(g_sa)
+    call SaveGrant requires who: gte == addr_bytes(grantee) && gtr == addr_bytes(granter) && exp == expiration
+    call SaveGrant requires what: SL0[denom] != 0 && !ciszero(rest) && isdyn(authorization, *SendAuthz) && dyn(authorization, *SendAuthz) != nil && dyn(authorization, *SendAuthz).SpendLimit == rest
+            && dyn(authorization, *SendAuthz).AllowList == AL0
+    call SaveGrant requires untouched: g_kind == old(g_kind) && g_exp == old(g_exp) && g_limited == old(g_limited) && g_limit == old(g_limit) && g_sa == old(g_sa)
+    ensures needs_limit: result == nil ==> isdyn(authorization, *SendAuthz) && SL0[denom] != 0
+    ensures deleted: result == nil && ciszero(rest) ==> old(g_kind)[key] != 0 && g_kind == upd(old(g_kind), key, 0) && g_exp == old(g_exp) && g_sa == old(g_sa)
+            && g_limited == old(g_limited) && g_limit == old(g_limit)
+    ensures removed: result == nil && !ciszero(rest) ==> g_kind == upd(old(g_kind), key, SendTag()) && g_exp == upd(old(g_exp), key, expiration) && g_sa[key].SpendLimit == rest
+            && g_sa[key].AllowList == AL0 && OnlySA(g_sa, old(g_sa), key) && g_limited == old(g_limited) && g_limit == old(g_limit)
+    ensures refused: !isdyn(authorization, *SendAuthz) || SL0[denom] == 0 ==> result != nil && g_kind == old(g_kind) && g_exp == old(g_exp) && g_limited == old(g_limited)
+            && g_limit == old(g_limit) && g_sa == old(g_sa)
+    // nothing is written through an authorization of another type
+    ensures untyped: !isdyn(authorization, *SendAuthz) ==> *cast(authorization, *SendAuthz) == old(*cast(authorization, *SendAuthz))
+
+// C04: new limit of the denomination = old limit + addedValue, every other denomination kept; a sum beyond 2^256-1 is refused with
+// nothing changed; not a SendAuthorization: refused, nothing changed
+func (Precompile).increaseAllowance
+    requires wf: addedValue != nil && *addedValue > 0 && (isdyn(authorization, *SendAuthz) ==> dyn(authorization, *SendAuthz) != nil && dyn(authorization, *SendAuthz).SpendLimit[p.tokenPair.Denom] >= 0)
+    let key = gkey(addr_bytes(grantee), addr_bytes(granter), glob_erc20_SendMsgURL)
+    let denom = p.tokenPair.Denom
+    let add = old(*addedValue)
+    let SL0 = old(dyn(authorization, *SendAuthz).SpendLimit)
+    let AL0 = old(dyn(authorization, *SendAuthz).AllowList)
+    modifies *cast(authorization, *SendAuthz), g_kind, g_exp, g_limited, g_limit, g_sa
+    call updateAuthorization requires who: grantee == old(grantee) && granter == old(granter) && expiration == old(expiration) && authorization == dyn(old(authorization), *SendAuthz)
+            && *amount == SL0[denom] + add && authorization.SpendLimit == SL0 && authorization.AllowList == AL0
+            && g_kind == old(g_kind) && g_exp == old(g_exp) && g_limited == old(g_limited) && g_limit == old(g_limit) && g_sa == old(g_sa)
+    ensures raised: err == nil ==> isdyn(authorization, *SendAuthz) && amount != nil && *amount == SL0[denom] + add && *amount < Pow256()
+            && g_kind == upd(old(g_kind), key, SendTag()) && g_exp == upd(old(g_exp), key, expiration) && g_sa[key].SpendLimit == cset(SL0, denom, SL0[denom] + add)
+            && g_sa[key].AllowList == AL0 && OnlySA(g_sa, old(g_sa), key) && g_limited == old(g_limited) && g_limit == old(g_limit)
+    ensures refused: !isdyn(authorization, *SendAuthz) || SL0[denom] + add >= Pow256() ==> err != nil && g_kind == old(g_kind) && g_exp == old(g_exp) && g_limited == old(g_limited)
+            && g_limit == old(g_limit) && g_sa == old(g_sa)
+    ensures untyped: !isdyn(authorization, *SendAuthz) ==> *cast(authorization, *SendAuthz) == old(*cast(authorization, *SendAuthz))
+
+// C04: new limit of the denomination = old limit - subtractedValue (call site: 0 < subtractedValue < old limit), every other
+// denomination kept; not a SendAuthorization: refused, nothing changed
+func (Precompile).decreaseAllowance
+    requires wf: subtractedValue != nil && (isdyn(authorization, *SendAuthz) ==> dyn(authorization, *SendAuthz) != nil
+            && 0 < *subtractedValue && *subtractedValue < dyn(authorization, *SendAuthz).SpendLimit[p.tokenPair.Denom] && dyn(authorization, *SendAuthz).SpendLimit[p.tokenPair.Denom] < Pow256())
+    let key = gkey(addr_bytes(grantee), addr_bytes(granter), glob_erc20_SendMsgURL)
+    let denom = p.tokenPair.Denom
+    let sub = old(*subtractedValue)
+    let SL0 = old(dyn(authorization, *SendAuthz).SpendLimit)
+    let AL0 = old(dyn(authorization, *SendAuthz).AllowList)
+    modifies *cast(authorization, *SendAuthz), g_kind, g_exp, g_limited, g_limit, g_sa
+    call updateAuthorization requires who: grantee == old(grantee) && granter == old(granter) && expiration == old(expiration) && authorization == dyn(old(authorization), *SendAuthz)
+            && *amount == SL0[denom] - sub && authorization.SpendLimit == SL0 && authorization.AllowList == AL0
+            && g_kind == old(g_kind) && g_exp == old(g_exp) && g_limited == old(g_limited) && g_limit == old(g_limit) && g_sa == old(g_sa)
+    // the call site has compared subtractedValue with the allowance already: the two safety refusals are dead code (proved)
+    unreachable return: return nil, fmt.Errorf(ErrNoAllowanceForToken, p.tokenPair.Denom)
+    unreachable return: return nil, ConvertErrToERC20Error(fmt.Errorf(ErrSubtractMoreThanAllowance, p.tokenPair.Denom, subtractedValue, allowance.Amount))
+    ensures lowered: err == nil ==> isdyn(authorization, *SendAuthz) && amount != nil && *amount == SL0[denom] - sub
+            && g_kind == upd(old(g_kind), key, SendTag()) && g_exp == upd(old(g_exp), key, expiration) && g_sa[key].SpendLimit == cset(SL0, denom, SL0[denom] - sub)
+            && g_sa[key].AllowList == AL0 && OnlySA(g_sa, old(g_sa), key) && g_limited == old(g_limited) && g_limit == old(g_limit)
+    ensures refused: !isdyn(authorization, *SendAuthz) ==> err != nil && g_kind == old(g_kind) && g_exp == old(g_exp) && g_limited == old(g_limited)
+            && g_limit == old(g_limit) && g_sa == old(g_sa)
+
+// ------------------------------------------------------------------ transfer / transferFrom
+// Preconditions are facts of the only call site (Precompile.Run -> HandleMethod): contract / method / StateDB are non-nil, args come
+// from abi.Arguments.Unpack (a uint256 argument is a non-nil *big.Int below 2^256), the ABI is the embedded abi.json, block heights
+// are >= 0. The caller (contract.CallerAddress), `from`, `to` and the amount are free.
+
+// C04, the common implementation. spender = contract.CallerAddress (the immediate caller).
+//  * exactly one bank MsgSend {from, to, amount of the token pair's denomination} is executed (directly when spender == from,
+//    through the authz keeper otherwise): the only account debited is `from`;
+//  * spender == from: no grant is read or written;
+//  * spender != from: a live SendAuthorization grant (from -> spender) must exist, its limit for this denomination must cover the
+//    amount (and a recipient allow list must contain `to`); afterwards that limit is lower by exactly the amount, the other
+//    denominations / allow list / expiration are kept, the grant is deleted when nothing is left; no other grant changes;
+//  * refusals before the point of no return (bad amount, no grant, overspend, recipient not allowed) change nothing.
+func (Precompile).transfer
+    requires wf: contract != nil && method != nil && stateDB != nil && amount != nil && bitlen(*amount) <= 256 && ctx_height(ctx) >= 0
+            && len(p.ABI.Events["Transfer"].Inputs) == 3 && len(p.ABI.Events["Approval"].Inputs) == 3
+    let spender = old(contract.CallerAddress)
+    let key = gkey(addr_bytes(spender), addr_bytes(from), glob_erc20_SendMsgURL)
+    let denom = p.tokenPair.Denom
+    let amt = old(*amount)
+    let coins = cone(denom, amt)
+    let valid = coins_denoms_ok(coins) && amt > 0
+    let live = old(GLive(g_kind, g_exp, key, ctx)) && old(g_kind)[key] == SendTag()
+    let SA = old(g_sa)[key]
+    let SL0 = old(g_sa)[key].SpendLimit
+    let left = cset(SL0, denom, SL0[denom] - amt)
+    let grants_same = g_kind == old(g_kind) && g_exp == old(g_exp) && g_limited == old(g_limited) && g_limit == old(g_limit) && g_sa == old(g_sa)
+    modifies cstate, g_kind, g_exp, g_limited, g_limit, g_sa
+    // ---- C04 at the points of no return
+    call NewIntFromBigInt requires fits: i != nil && bitlen(*i) <= 256
+    call MsgServer.Send requires who: spender == from && msg.FromAddress == bech_of(from) && msg.ToAddress == bech_of(to) && msg.Amount == coins && goCtx == ctx_wrap(ctx) && valid
+    call MsgServer.Send requires untouched: cstate == old(cstate) && grants_same
+    call DispatchActions requires who: spender != from && kctx == ctx && grantee == addr_bytes(spender) && dyn(msgs[0], *MsgSend).FromAddress == bech_of(from)
+            && dyn(msgs[0], *MsgSend).ToAddress == bech_of(to) && dyn(msgs[0], *MsgSend).Amount == coins && valid
+    call DispatchActions requires granted: GLive(g_kind, g_exp, key, ctx) && g_kind[key] == SendTag()
+    call DispatchActions requires untouched: cstate == old(cstate) && grants_same
+    call Pack requires packs_true: len(args) == 1 && isdyn(args[0], bool) && dyn(args[0], bool)
+    // a refused transfer / transferFrom leaves the allowance alone: where the error of the send / dispatch is reported (the second
+    // ConvertErrToERC20Error call) no grant has changed. FINDING E1 (see report): the authz keeper reduces / deletes the grant BEFORE the
+    // bank send runs and has no cache context: when the send is then refused (insufficient balance of `from`, blocked recipient,
+    // sends disabled) the error is returned with the allowance already consumed. (A call-site clause, not a postcondition: a
+    // postcondition known not to hold would be assumed by TransferFrom.)
+    call ConvertErrToERC20Error#2 requires atomic: grants_same
+    // ---- C04 as postconditions
+    ensures valid: err == nil ==> valid
+    ensures effect: err == nil ==> send_ok(old(cstate), ctx_wrap(ctx), bech_of(from), bech_of(to), coins) && cstate == send_post(old(cstate), ctx_wrap(ctx), bech_of(from), bech_of(to), coins)
+    ensures own_call: spender == from ==> grants_same
+    ensures granted: err == nil && spender != from ==> live && amt <= SL0[denom] && SendCovers(SA, bech_of(to), coins)
+    ensures spent_part: err == nil && spender != from && !ciszero(left) ==> g_kind == old(g_kind) && g_exp == old(g_exp) && g_sa[key].SpendLimit == left && g_sa[key].AllowList == SA.AllowList
+            && OnlySA(g_sa, old(g_sa), key)
+    ensures spent_all: err == nil && spender != from && ciszero(left) ==> g_kind == upd(old(g_kind), key, 0) && g_exp == old(g_exp) && g_sa == old(g_sa)
+    ensures never_negative: err == nil && spender != from && cnonneg(SL0) ==> cnonneg(g_sa[key].SpendLimit)
+    ensures stake_untouched: g_limited == old(g_limited) && g_limit == old(g_limit)
+    ensures others: OnlyKind(g_kind, old(g_kind), key) && g_exp == old(g_exp) && OnlySA(g_sa, old(g_sa), key)
+    ensures invalid: !valid ==> err != nil && cstate == old(cstate) && grants_same
+    ensures no_grant: spender != from && !live ==> err != nil && cstate == old(cstate) && grants_same
+    ensures overspend: spender != from && amt > SL0[denom] ==> err != nil && cstate == old(cstate) && grants_same
+    ensures not_allowed: spender != from && live && !SendCovers(SA, bech_of(to), coins) ==> err != nil && cstate == old(cstate) && grants_same
+
+// C04 transfer(to, amount): moves exactly `amount` of the token pair's denomination from the immediate caller to `to`; no grant is
+// read or written; nobody else is debited
+func (Precompile).Transfer
+    requires wf: contract != nil && method != nil && stateDB != nil && ctx_height(ctx) >= 0 && len(p.ABI.Events["Transfer"].Inputs) == 3 && len(p.ABI.Events["Approval"].Inputs) == 3
+    requires abi_uint256: len(args) == 2 && isdyn(args[1], *BigInt) ==> dyn(args[1], *BigInt) != nil && bitlen(*dyn(args[1], *BigInt)) <= 256
+    let caller = old(contract.CallerAddress)
+    let to = dyn(args[0], Address)
+    let denom = p.tokenPair.Denom
+    let amt = old(*dyn(args[1], *BigInt))
+    let coins = cone(denom, amt)
+    let okargs = len(args) == 2 && isdyn(args[0], Address) && isdyn(args[1], *BigInt)
+    let valid = coins_denoms_ok(coins) && amt > 0
+    modifies cstate, g_kind, g_exp, g_limited, g_limit, g_sa
+    call transfer requires who: from == old(contract.CallerAddress) && to == ret(ParseTransferArgs, 1, 0) && amount == ret(ParseTransferArgs, 1, 1) && contract == old(contract)
+            && contract.CallerAddress == old(contract.CallerAddress) && ctx == old(ctx) && p == old(p)
+    call transfer requires untouched: cstate == old(cstate) && g_kind == old(g_kind) && g_exp == old(g_exp) && g_limited == old(g_limited) && g_limit == old(g_limit) && g_sa == old(g_sa)
+    ensures decoded: result.1 == nil ==> okargs && valid
+    ensures effect: result.1 == nil ==> send_ok(old(cstate), ctx_wrap(ctx), bech_of(caller), bech_of(to), coins) && cstate == send_post(old(cstate), ctx_wrap(ctx), bech_of(caller), bech_of(to), coins)
+    ensures no_grants: g_kind == old(g_kind) && g_exp == old(g_exp) && g_limited == old(g_limited) && g_limit == old(g_limit) && g_sa == old(g_sa)
+    ensures refused: !okargs || !valid ==> result.1 != nil && cstate == old(cstate)
+
+// C04 transferFrom(from, to, amount) by spender = the immediate caller: as `transfer` above with the decoded arguments
+func (Precompile).TransferFrom
+    requires wf: contract != nil && method != nil && stateDB != nil && ctx_height(ctx) >= 0 && len(p.ABI.Events["Transfer"].Inputs) == 3 && len(p.ABI.Events["Approval"].Inputs) == 3
+    requires abi_uint256: len(args) == 3 && isdyn(args[2], *BigInt) ==> dyn(args[2], *BigInt) != nil && bitlen(*dyn(args[2], *BigInt)) <= 256
+    let spender = old(contract.CallerAddress)
+    let from = dyn(args[0], Address)
+    let to = dyn(args[1], Address)
+    let key = gkey(addr_bytes(spender), addr_bytes(from), glob_erc20_SendMsgURL)
+    let denom = p.tokenPair.Denom
+    let amt = old(*dyn(args[2], *BigInt))
+    let coins = cone(denom, amt)
+    let okargs = len(args) == 3 && isdyn(args[0], Address) && isdyn(args[1], Address) && isdyn(args[2], *BigInt)
+    let valid = coins_denoms_ok(coins) && amt > 0
+    let live = old(GLive(g_kind, g_exp, key, ctx)) && old(g_kind)[key] == SendTag()
+    let SA = old(g_sa)[key]
+    let SL0 = old(g_sa)[key].SpendLimit
+    let left = cset(SL0, denom, SL0[denom] - amt)
+    let grants_same = g_kind == old(g_kind) && g_exp == old(g_exp) && g_limited == old(g_limited) && g_limit == old(g_limit) && g_sa == old(g_sa)
+    modifies cstate, g_kind, g_exp, g_limited, g_limit, g_sa
+    call transfer requires who: from == ret(ParseTransferFromArgs, 1, 0) && to == ret(ParseTransferFromArgs, 1, 1) && amount == ret(ParseTransferFromArgs, 1, 2) && contract == old(contract)
+            && contract.CallerAddress == old(contract.CallerAddress) && ctx == old(ctx) && p == old(p)
+    call transfer requires untouched: cstate == old(cstate) && grants_same
+    ensures decoded: result.1 == nil ==> okargs && valid
+    ensures effect: result.1 == nil ==> send_ok(old(cstate), ctx_wrap(ctx), bech_of(from), bech_of(to), coins) && cstate == send_post(old(cstate), ctx_wrap(ctx), bech_of(from), bech_of(to), coins)
+    ensures own_call: okargs && spender == from ==> grants_same
+    ensures granted: result.1 == nil && spender != from ==> live && amt <= SL0[denom] && SendCovers(SA, bech_of(to), coins)
+    ensures spent_part: result.1 == nil && spender != from && !ciszero(left) ==> g_kind == old(g_kind) && g_exp == old(g_exp) && g_sa[key].SpendLimit == left && g_sa[key].AllowList == SA.AllowList
+            && OnlySA(g_sa, old(g_sa), key)
+    ensures spent_all: result.1 == nil && spender != from && ciszero(left) ==> g_kind == upd(old(g_kind), key, 0) && g_exp == old(g_exp) && g_sa == old(g_sa)
+    ensures stake_untouched: g_limited == old(g_limited) && g_limit == old(g_limit)
+    ensures others: okargs ==> OnlyKind(g_kind, old(g_kind), key) && g_exp == old(g_exp) && OnlySA(g_sa, old(g_sa), key)
+    ensures bad_args: !okargs || !valid ==> result.1 != nil && cstate == old(cstate) && grants_same
+    ensures no_grant: okargs && spender != from && !live ==> result.1 != nil && cstate == old(cstate) && grants_same
+    ensures overspend: okargs && spender != from && amt > SL0[denom] ==> result.1 != nil && cstate == old(cstate) && grants_same
+    ensures not_allowed: okargs && spender != from && live && !SendCovers(SA, bech_of(to), coins) ==> result.1 != nil && cstate == old(cstate) && grants_same
+
+// ------------------------------------------------------------------ approve / increaseAllowance / decreaseAllowance
+// owner = granter = contract.CallerAddress (the immediate caller), spender = grantee = args[0]. Every grant written or deleted is the
+// one (owner -> spender) for MsgSend, and in it only the limit of the token pair's denomination changes.
+
+// C04 approve(spender, amount):
+//  * spender == owner: refused;  * no live grant: amount > 0 creates one limited to exactly {denom: amount}, 0 is a no-op, < 0 refused;
+//  * live SendAuthorization grant: amount > 0 sets the denomination's limit to exactly amount, amount <= 0 removes the denomination
+//    (error when it has no limit); other denominations, allow list and expiration are kept; the grant is deleted when the
+//    denomination was the only one;  * a live grant of another kind: refused.  No other grant changes; refusals change nothing.
+func (Precompile).Approve
+    requires wf: contract != nil && method != nil && stateDB != nil && ctx_height(ctx) >= 0 && len(p.ABI.Events["Approval"].Inputs) == 3
+    requires abi_uint256: len(args) == 2 && isdyn(args[1], *BigInt) ==> dyn(args[1], *BigInt) != nil && bitlen(*dyn(args[1], *BigInt)) <= 256
+    let owner = old(contract.CallerAddress)
+    let spender = dyn(args[0], Address)
+    let key = gkey(addr_bytes(spender), addr_bytes(owner), glob_erc20_SendMsgURL)
+    let denom = p.tokenPair.Denom
+    let amt = old(*dyn(args[1], *BigInt))
+    let okargs = len(args) == 2 && isdyn(args[0], Address) && isdyn(args[1], *BigInt)
+    let live = old(GLive(g_kind, g_exp, key, ctx))
+    let send = old(g_kind)[key] == SendTag()
+    let SL0 = old(g_sa)[key].SpendLimit
+    let AL0 = old(g_sa)[key].AllowList
+    let rest = cset(SL0, denom, 0)
+    let same = g_kind == old(g_kind) && g_exp == old(g_exp) && g_limited == old(g_limited) && g_limit == old(g_limit) && g_sa == old(g_sa)
+    modifies g_kind, g_exp, g_limited, g_limit, g_sa
+    call createAuthorization requires who: grantee == ret(ParseApproveArgs, 1, 0) && granter == old(contract.CallerAddress) && amount == ret(ParseApproveArgs, 1, 1) && same
+    call removeSpendLimitOrDeleteAuthorization requires who: grantee == ret(ParseApproveArgs, 1, 0) && granter == old(contract.CallerAddress) && authorization == ret(CheckAuthzExists, 1, 0)
+            && expiration == ret(CheckAuthzExists, 1, 1) && same
+    call updateAuthorization requires who: grantee == ret(ParseApproveArgs, 1, 0) && granter == old(contract.CallerAddress) && amount == ret(ParseApproveArgs, 1, 1)
+            && authorization == dyn(ret(CheckAuthzExists, 1, 0), *SendAuthz) && expiration == ret(CheckAuthzExists, 1, 1) && same
+    call Pack requires packs_true: len(args) == 1 && isdyn(args[0], bool) && dyn(args[0], bool)
+    ensures decoded: result.1 == nil ==> okargs && spender != owner
+    ensures refused: !okargs || spender == owner ==> result.1 != nil && same
+    ensures only_own: result.1 == nil ==> OnlyKind(g_kind, old(g_kind), key) && OnlyKind(g_exp, old(g_exp), key) && OnlySA(g_sa, old(g_sa), key) && g_limited == old(g_limited) && g_limit == old(g_limit)
+    ensures created: result.1 == nil && !live && amt > 0 ==> g_kind[key] == SendTag() && g_sa[key].SpendLimit == cone(denom, amt) && len(g_sa[key].AllowList) == 0
+            && g_exp[key] != nil && !exp_passed(g_exp[key], ctx)
+    ensures no_grant_zero: !live && amt == 0 ==> same
+    ensures no_grant_negative: okargs && !live && amt < 0 ==> result.1 != nil && same
+    ensures updated: result.1 == nil && live && amt > 0 ==> send && g_kind[key] == SendTag() && g_exp[key] == old(g_exp)[key] && g_sa[key].SpendLimit == cset(SL0, denom, amt) && g_sa[key].AllowList == AL0
+    ensures removed: result.1 == nil && live && amt <= 0 ==> send && SL0[denom] != 0 && ite(ciszero(rest), g_kind[key] == 0 && g_exp == old(g_exp) && g_sa == old(g_sa),
+            g_kind[key] == SendTag() && g_exp[key] == old(g_exp)[key] && g_sa[key].SpendLimit == rest && g_sa[key].AllowList == AL0)
+    ensures wrong_kind: okargs && live && !send ==> result.1 != nil && same
+    ensures no_limit: okargs && live && send && amt <= 0 && SL0[denom] == 0 ==> result.1 != nil && same
+
+// C04 increaseAllowance(spender, addedValue): addedValue <= 0 refused; no live grant: as approve(addedValue); live SendAuthorization
+// grant: the denomination's limit becomes exactly old + addedValue (refused beyond 2^256-1), everything else of the grant kept
+func (Precompile).IncreaseAllowance
+    requires wf: contract != nil && method != nil && stateDB != nil && ctx_height(ctx) >= 0 && len(p.ABI.Events["Approval"].Inputs) == 3
+    requires abi_uint256: len(args) == 2 && isdyn(args[1], *BigInt) ==> dyn(args[1], *BigInt) != nil && bitlen(*dyn(args[1], *BigInt)) <= 256
+    // stored spend limits have no negative entry (every writer validates: SendAuthorization.ValidateBasic, Accept's SafeSub)
+    requires valid_store: len(args) == 2 && isdyn(args[0], Address) ==> g_sa[gkey(addr_bytes(dyn(args[0], Address)), addr_bytes(contract.CallerAddress), glob_erc20_SendMsgURL)].SpendLimit[p.tokenPair.Denom] >= 0
+    let owner = old(contract.CallerAddress)
+    let spender = dyn(args[0], Address)
+    let key = gkey(addr_bytes(spender), addr_bytes(owner), glob_erc20_SendMsgURL)
+    let denom = p.tokenPair.Denom
+    let amt = old(*dyn(args[1], *BigInt))
+    let okargs = len(args) == 2 && isdyn(args[0], Address) && isdyn(args[1], *BigInt)
+    let live = old(GLive(g_kind, g_exp, key, ctx))
+    let send = old(g_kind)[key] == SendTag()
+    let SL0 = old(g_sa)[key].SpendLimit
+    let AL0 = old(g_sa)[key].AllowList
+    let same = g_kind == old(g_kind) && g_exp == old(g_exp) && g_limited == old(g_limited) && g_limit == old(g_limit) && g_sa == old(g_sa)
+    modifies g_kind, g_exp, g_limited, g_limit, g_sa
+    call createAuthorization requires who: grantee == ret(ParseApproveArgs, 1, 0) && granter == old(contract.CallerAddress) && amount == ret(ParseApproveArgs, 1, 1) && same
+    call increaseAllowance requires who: grantee == ret(ParseApproveArgs, 1, 0) && granter == old(contract.CallerAddress) && addedValue == ret(ParseApproveArgs, 1, 1)
+            && authorization == ret(CheckAuthzExists, 1, 0) && expiration == ret(CheckAuthzExists, 1, 1) && same
+    call Pack requires packs_true: len(args) == 1 && isdyn(args[0], bool) && dyn(args[0], bool)
+    ensures decoded: result.1 == nil ==> okargs && spender != owner && amt > 0
+    ensures refused: !okargs || spender == owner || amt <= 0 ==> result.1 != nil && same
+    ensures only_own: result.1 == nil ==> OnlyKind(g_kind, old(g_kind), key) && OnlyKind(g_exp, old(g_exp), key) && OnlySA(g_sa, old(g_sa), key) && g_limited == old(g_limited) && g_limit == old(g_limit)
+    ensures created: result.1 == nil && !live ==> g_kind[key] == SendTag() && g_sa[key].SpendLimit == cone(denom, amt) && len(g_sa[key].AllowList) == 0
+            && g_exp[key] != nil && !exp_passed(g_exp[key], ctx)
+    ensures raised: result.1 == nil && live ==> send && SL0[denom] + amt < Pow256() && g_kind[key] == SendTag() && g_exp[key] == old(g_exp)[key]
+            && g_sa[key].SpendLimit == cset(SL0, denom, SL0[denom] + amt) && g_sa[key].AllowList == AL0
+    ensures overflow: okargs && live && send && SL0[denom] + amt >= Pow256() ==> result.1 != nil && same
+    ensures wrong_kind: okargs && live && !send ==> result.1 != nil && same
+
+// C04 decreaseAllowance(spender, subtractedValue): needs a live SendAuthorization grant (owner -> spender) and 0 < subtractedValue <=
+// the denomination's limit; the limit becomes exactly old - subtractedValue, at 0 the denomination is removed (grant deleted when it
+// was the only one); everything else of the grant is kept; all refusals change nothing
+func (Precompile).DecreaseAllowance
+    requires wf: contract != nil && method != nil && stateDB != nil && ctx_height(ctx) >= 0 && len(p.ABI.Events["Approval"].Inputs) == 3
+    requires abi_uint256: len(args) == 2 && isdyn(args[1], *BigInt) ==> dyn(args[1], *BigInt) != nil && bitlen(*dyn(args[1], *BigInt)) <= 256
+    // stored amounts are math.Int values: below 2^256 (A-int256)
+    requires valid_store: len(args) == 2 && isdyn(args[0], Address) ==> g_sa[gkey(addr_bytes(dyn(args[0], Address)), addr_bytes(contract.CallerAddress), glob_erc20_SendMsgURL)].SpendLimit[p.tokenPair.Denom] < Pow256()
+    let owner = old(contract.CallerAddress)
+    let spender = dyn(args[0], Address)
+    let key = gkey(addr_bytes(spender), addr_bytes(owner), glob_erc20_SendMsgURL)
+    let denom = p.tokenPair.Denom
+    let amt = old(*dyn(args[1], *BigInt))
+    let okargs = len(args) == 2 && isdyn(args[0], Address) && isdyn(args[1], *BigInt)
+    let live = old(GLive(g_kind, g_exp, key, ctx))
+    let send = old(g_kind)[key] == SendTag()
+    let SL0 = old(g_sa)[key].SpendLimit
+    let AL0 = old(g_sa)[key].AllowList
+    let rest = cset(SL0, denom, 0)
+    let same = g_kind == old(g_kind) && g_exp == old(g_exp) && g_limited == old(g_limited) && g_limit == old(g_limit) && g_sa == old(g_sa)
+    modifies g_kind, g_exp, g_limited, g_limit, g_sa
+    call removeSpendLimitOrDeleteAuthorization requires who: grantee == ret(ParseApproveArgs, 1, 0) && granter == old(contract.CallerAddress) && authorization == ret(GetAuthzExpirationAndAllowance, 1, 0)
+            && expiration == ret(GetAuthzExpirationAndAllowance, 1, 1) && amt == SL0[denom] && same
+    call decreaseAllowance requires who: grantee == ret(ParseApproveArgs, 1, 0) && granter == old(contract.CallerAddress) && subtractedValue == ret(ParseApproveArgs, 1, 1)
+            && authorization == ret(GetAuthzExpirationAndAllowance, 1, 0) && expiration == ret(GetAuthzExpirationAndAllowance, 1, 1) && same
+    call Pack requires packs_true: len(args) == 1 && isdyn(args[0], bool) && dyn(args[0], bool)
+    ensures decoded: result.1 == nil ==> okargs && spender != owner && live && send && 0 < amt && amt <= SL0[denom]
+    ensures refused: !okargs || spender == owner || amt <= 0 || !live || !send || amt > SL0[denom] ==> result.1 != nil && same
+    ensures only_own: result.1 == nil ==> OnlyKind(g_kind, old(g_kind), key) && OnlyKind(g_exp, old(g_exp), key) && OnlySA(g_sa, old(g_sa), key) && g_limited == old(g_limited) && g_limit == old(g_limit)
+    ensures lowered: result.1 == nil && amt < SL0[denom] ==> g_kind[key] == SendTag() && g_exp[key] == old(g_exp)[key] && g_sa[key].SpendLimit == cset(SL0, denom, SL0[denom] - amt) && g_sa[key].AllowList == AL0
+    ensures exact: result.1 == nil && amt == SL0[denom] ==> ite(ciszero(rest), g_kind[key] == 0 && g_exp == old(g_exp) && g_sa == old(g_sa),
+            g_kind[key] == SendTag() && g_exp[key] == old(g_exp)[key] && g_sa[key].SpendLimit == rest && g_sa[key].AllowList == AL0)
+@*/
